@@ -130,6 +130,9 @@ fn names_table(pf: &ParsedFormula) -> String {
 pub fn c16(out: &mut dyn Write, tier: &str, rng: &mut Rng, st: &mut Stats) {
     // vertex names: plain identifiers, and ones that look like the generator's own copies
     let pool = ["a", "b", "c", "d", "v_a", "v_b", "x1", "v_v_a"];
+    // names whose concatenations coincide (with and without a `_` between them): x + y_z = x_y + z, a + bc = ab + c
+    let pool_join = ["x", "y", "z", "x_y", "y_z", "z_x", "x_y_z", "x_", "_y"];
+    let pool_cat = ["a", "b", "c", "ab", "bc", "abc", "ca"];
     let mut cases: Vec<(Vec<(String, String)>, bool, bool)> = Vec::new();
     // hand-written corner cases first
     let fixed: Vec<Vec<(&str, &str)>> = vec![
@@ -137,6 +140,8 @@ pub fn c16(out: &mut dyn Write, tier: &str, rng: &mut Rng, st: &mut Stats) {
         vec![("a", "b"), ("b", "c"), ("c", "a")], vec![("a", "b"), ("b", "c")], vec![("a", "v_a")],
         vec![("a", "b"), ("v_a", "b")], vec![("a", "b"), ("b", "a"), ("b", "c"), ("c", "b"), ("a", "c"), ("c", "a")],
         vec![("a", "b"), ("c", "d")], vec![("v_a", "v_v_a"), ("a", "v_a")],
+        vec![("x", "y_z"), ("y_z", "x"), ("x", "x_y"), ("x_y", "x"), ("x", "z"), ("z", "x")],
+        vec![("x", "y_z"), ("z_x", "y"), ("x_y", "z")], vec![("a", "bc"), ("ab", "c")], vec![("a", "bc"), ("bc", "a"), ("ab", "c")],
     ];
     for f in &fixed { for u in [false, true] { for a in [false, true] {
         cases.push((f.iter().map(|(x, y)| (x.to_string(), y.to_string())).collect(), u, a));
@@ -145,8 +150,11 @@ pub fn c16(out: &mut dyn Write, tier: &str, rng: &mut Rng, st: &mut Stats) {
     for _ in 0..n {
         let k = 2 + rng.below(3) as usize; // 2..4 distinct names in play
         let mut names: Vec<String> = Vec::new();
-        while names.len() < k { let nm = rng.pick(&pool[..]).to_string(); if !names.contains(&nm) { names.push(nm); } }
-        let m = 1 + rng.below(6) as usize;
+        let which = rng.below(4);
+        let pl: &[&str] = if which == 0 { &pool_join[..] } else if which == 1 { &pool_cat[..] } else { &pool[..] };
+        let k = if which < 2 { 3 + rng.below(3) as usize } else { k };
+        while names.len() < k { let nm = rng.pick(pl).to_string(); if !names.contains(&nm) { names.push(nm); } }
+        let m = 1 + rng.below(if which < 2 { 9 } else { 6 }) as usize;
         let edges: Vec<(String, String)> = (0..m).map(|_| (rng.pick(&names[..]).clone(), rng.pick(&names[..]).clone())).collect();
         cases.push((edges, rng.chance(1, 2), rng.chance(1, 2)));
     }
